@@ -210,15 +210,54 @@ func (x *Exec) mapGetSpec(c *CEnv, mv, k Value) Value {
 // cannot be concluded from it.
 func (x *Exec) rangeInit(fr *Frame, st *State, i *ssa.Range) {
 	base := x.get(fr, st, i.X)
-	if base.K != KMap {
-		unsupported("range over string")
+	if base.K != KMap && base.K != KString {
+		unsupported("range over %v", base.K)
 	}
 	fr.env[i] = base
 }
 
+// range over a string. The model is an over-approximation of UTF-8 iteration, like the map model:
+// every Next either ends the iteration or yields SOME byte position k of the string together with a
+// rune r such that r is that byte when the byte is ASCII (< 0x80), and otherwise some value in
+// [0x80, 0x10FFFF] (what a multi-byte sequence decodes to, or U+FFFD for an invalid one). No order, no
+// "every position is visited". What is proved about one iteration holds for every real iteration.
+func (x *Exec) rangeNextString(fr *Frame, st *State, i *ssa.Next) {
+	m := x.m()
+	ixT := IntTy{64, true}
+	base := x.get(fr, st, i.Iter)
+	if base.K != KString {
+		unsupported("range next on %v", base.K)
+	}
+	okT := x.vc.fresh(fmt.Sprintf("f%d.%s.more", fr.id, i.Name()), SBool)
+	k := x.vc.fresh(fmt.Sprintf("f%d.%s.pos", fr.id, i.Name()), m.ixSort())
+	r := x.vc.fresh(fmt.Sprintf("f%d.%s.rune", fr.id, i.Name()), m.intSort(IntTy{32, true}))
+	rT := IntTy{32, true}
+	bT := IntTy{8, false}
+	by := Select(base.X, k)
+	inStr := And(m.cmp(token.LEQ, m.ix(0), k, ixT), m.cmp(token.LSS, k, base.Len, ixT))
+	ascii := m.cmp(token.LSS, by, m.lit(bigInt(0x80), bT), bT)
+	asRune := m.convert(by, bT, rT)
+	multi := And(m.cmp(token.GEQ, r, m.lit(bigInt(0x80), rT), rT), m.cmp(token.LEQ, r, m.lit(bigInt(0x10FFFF), rT), rT))
+	x.vc.assume(Implies(And(st.Reach, okT), And(inStr, Ite(ascii, Eq(r, asRune), multi))))
+	tt := i.Type().(*types.Tuple)
+	fields := []Value{{K: KScalar, T: types.Typ[types.Bool], X: okT}}
+	if b, isB := tt.At(1).Type().(*types.Basic); isB && b.Kind() == types.Invalid {
+		fields = append(fields, Value{K: KTuple})
+	} else {
+		fields = append(fields, Value{K: KScalar, T: types.Typ[types.Int], X: k})
+	}
+	if b, isB := tt.At(2).Type().(*types.Basic); isB && b.Kind() == types.Invalid {
+		fields = append(fields, Value{K: KTuple})
+	} else {
+		fields = append(fields, Value{K: KScalar, T: types.Typ[types.Rune], X: r})
+	}
+	fr.env[i] = Value{T: i.Type(), K: KTuple, Fields: fields}
+}
+
 func (x *Exec) rangeNext(fr *Frame, st *State, i *ssa.Next) {
 	if i.IsString {
-		unsupported("range over string")
+		x.rangeNextString(fr, st, i)
+		return
 	}
 	rng, ok := i.Iter.(*ssa.Range)
 	if !ok {
